@@ -79,14 +79,14 @@ def run_case(seed, props):
             env.queue.remove(ent[0])
             before = len(env.queue)
             try:
-                v = p.gen.send(None)
+                v = p.gen.send(getattr(p, "_send", None))
             except StopIteration as e:
-                p.triggered = True
+                env.on_end(p, e.value)
                 return ("done", e.value)
             except BaseException as e:   # noqa
                 p.triggered = True
                 return ("raise", e)
-            env._push(env.now + v._delay, env.NORMAL, p)
+            env.after_yield(p, v)
             return ("yield", v)
 
         def new_procs(before):
